@@ -305,6 +305,18 @@ theorem alloc_noFault (hc : CfgOK cfg) (h : GeomInv cfg s) (hr : RespsOK cfg s) 
     (hb : BaseOK cfg s L) : ∃ s' r, alloc cfg s L = .ok (s', r) :=
   (alloc_ok hc h hr hL).2 hb
 
+/-- a failed allocation leaves the current chunk where it was (after the fix of the crate, c107ca6:
+    `in_another_chunk` no longer stays in the last chunk it walked to when the base allocator refuses) -/
+theorem alloc_error_cur (hc : CfgOK cfg) (h : GeomInv cfg s) (hr : RespsOK cfg s) {L : Layout} (hL : L.Valid)
+    {s' : State} {e : AErr} (he : alloc cfg s L = .ok (s', .error e)) : s'.cur = s.cur :=
+  (alloc_inv hc h hr hL he).cur_err e rfl
+
+theorem allocGeneric_error_cur (hc : CfgOK cfg) (h : GeomInv cfg s) (hr : RespsOK cfg s) (k : Kind)
+    {L : Layout} {hints hSlow : Hints} (hL : L.Valid) (hh : hints.sma = true → L.align ∣ L.size)
+    (hhs : hSlow.sma = true → L.align ∣ L.size) (hk : k = .range → L.align ∣ L.size)
+    {s' : State} {e : AErr} (he : allocGeneric cfg k s L hints hSlow = .ok (s', .error e)) : s'.cur = s.cur :=
+  (allocGeneric_inv hc h hr k hL hh hhs hk he).cur_err e rfl
+
 /-- each later chunk is strictly larger than its predecessor: preserved by every path of an allocation -/
 theorem slow_sizesIncreasing {α : Type} (hc : CfgOK cfg) {L : Layout} {s' : State} {r : Except AErr α}
     (p : SlowPost cfg L s s' r) (h : GeomInv cfg s) (hs : SizesIncreasing s) (hu : UnallocEmpty s) :
